@@ -72,11 +72,13 @@ class AtomicQueue(Unit):
             return [("active", "2", "MMF"), ("active", "1,1", "MMF"), ("active", "2,1", "MDMF"),
                     ("active", "1,1,1", "MMF"), ("active", "2,2", "IDMF"), ("active", "1,1", "IADF"),
                     ("inactive", "1,1", "MF"), ("inactive", "2,1", "DMF"), ("inactive", "1", "AMF"),
-                    ("active", "2,1,1", "MMMF")]
+                    ("active", "2,1,1", "MMMF"), ("active", "2,1", "RMRF"), ("inactive", "1,1", "RRF"),
+                    ("inactive", "2o,1", "MF"), ("active", "1o,1o", "MMF"), ("active", "2o,1", "MRMF")]
         progs = []
         for init in ("active", "inactive"):
-            for counts in ("1", "2", "3", "1,1", "2,1", "2,2", "1,1,1", "2,1,1", "2,2,2", "3,3", "1,1,1,1"):
-                for scr in ("F", "MF", "MMF", "MMMF", "IDF", "IADF", "DDF", "MDMDF", "IMAMF", "AF", "AMMF"):
+            for counts in ("1", "2", "3", "1,1", "2,1", "2,2", "1,1,1", "2,1,1", "2,2,2", "3,3", "1,1,1,1",
+                           "2o", "1o,1", "2o,1o", "1o,1o,1"):
+                for scr in ("F", "MF", "MMF", "MMMF", "IDF", "IADF", "DDF", "MDMDF", "IMAMF", "AF", "AMMF", "RRF", "MRMF"):
                     progs.append((init, counts, scr))
         return progs
     def model_args(self, prog):
@@ -90,8 +92,12 @@ class AtomicQueue(Unit):
                 out.append((t, "head " + rest))
             elif name == "!wake":
                 out.append((t, "wake " + rest))
+            elif name == "!direct":
+                out.append((t, "direct " + rest))
             elif name == "!batch":
                 out.append((t, "batch [%s]" % rest.strip()))
+            elif name == "!rbatch":
+                out.append((t, "rbatch [%s]" % rest.strip()))
         return out
     def post_check(self, prog, summary, proj):
         if "final=1" not in summary:
@@ -99,7 +105,7 @@ class AtomicQueue(Unit):
         m = re.search(r"delivered=(\S*) enq=(\S*) stack=(\S*) ", summary)
         if prog[2].endswith("F") and (m.group(1) != m.group(2) or m.group(3)):
             return "after the final drain delivered != enqueued: " + summary
-        total = sum(int(x) for x in prog[1].split(","))
+        total = sum(int(x.rstrip("o")) for x in prog[1].split(","))
         if len([x for x in m.group(2).split(",") if x]) != total:
             return "not every enqueue took effect: " + summary
         return None
